@@ -24,7 +24,7 @@ ASSUMPTIONS = ['level names are matched case-insensitively and numeric levels ar
                'nor may they be removed']
 REQUIRED = ['routing_sequences', 'emits', 'deliveries_expected', 'silences_expected', 'resets', 'invalid_level_requests',
             'rotations', 'rotations_with_surplus', 'concurrent_disconnects_injected', 'concurrent_logging_requests_injected',
-            'subscription_changes_injected_into_emits']
+            'subscription_changes_injected_into_emits', 'concurrent_emits_injected']
 
 N_SEQ = {'quick': 200, 'thorough': 10000}
 N_DIR = {'quick': 200, 'thorough': 10000}
@@ -170,8 +170,14 @@ class Routing:
                     # exactly before the k-th line of RemoteLogHandler.handle: the delivery of THIS record may go either
                     # way, every later record follows the new table
                     ci = rng.randrange(nconn)
-                    kind = rng.choice(['logging', 'logging', 'idn', 'disconnect'])
+                    kind = rng.choice(['logging', 'logging', 'idn', 'disconnect', 'emit', 'emit'])
                     m2, l2 = rng.choice(mods + ['.']), rng.choice(['debug', 'info', 'warning', 'error', 'off', 'off'])
+                    if kind == 'emit':
+                        # another module's thread creates a record of its own at that point: the table does not change and
+                        # BOTH records are delivered according to it
+                        m2, l2 = rng.choice(mods), rng.choice(list(LEVELNO))
+                        uniq += 1
+                        text2 = f'msg-{uniq}'
                     k = rng.randint(1, 14)
                     ops[-1].append(f'while connection {ci}: {kind} {m2} {l2} at line {k}')
                     cc = conns[ci]
@@ -179,6 +185,8 @@ class Routing:
                     def change(cc=cc, kind=kind, m2=m2, l2=l2):
                         if kind == 'logging':
                             disp.handle_request(cc, ('logging', m2, l2))
+                        elif kind == 'emit':
+                            node.secnode.modules[m2].log.log(LEVELNO[l2], '%s', text2)
                         elif kind == 'idn':
                             disp.handle_request(cc, ('*IDN?', None, None))
                         else:
@@ -193,12 +201,31 @@ class Routing:
                         if not self.inj.disarm():
                             change()
                         else:
-                            r.count('subscription_changes_injected_into_emits')
+                            r.count('concurrent_emits_injected' if kind == 'emit' else 'subscription_changes_injected_into_emits')
                     if raised is not None:
                         r.violation(f'C20/routing/emit-raises/{type(raised).__name__}',
                                     f'logging a record raised {type(raised).__name__}: {raised} in the emitting thread while connection {ci} '
                                     f'changed its subscription ({kind})', case)
                         return
+                    if kind == 'emit':
+                        for cj, c in enumerate(conns):
+                            for mm, ln, tx in ((m, lname, text), (m2, l2, text2)):
+                                got = [msg for msg in c.out if msg[0] == 'log' and msg[2] == tx]
+                                lev = table[c.n].get(mm)
+                                expected = lev is not None and LEVELNO[ln] >= lev
+                                r.count('deliveries_expected' if expected else 'silences_expected')
+                                if expected and len(got) != 1:
+                                    who = 'of-the-interrupted-thread' if tx == text else 'of-the-second-thread'
+                                    r.violation(f'C20/routing/not-delivered/concurrent-emits/{who}' if not got else
+                                                'C20/routing/delivered-twice/concurrent-emits',
+                                                f'record {mm}:{ln} {who} with level table {table[c.n]} on connection {cj}: {len(got)} '
+                                                f'messages, while two threads log at the same time', case)
+                                    return
+                                if not expected and got:
+                                    r.violation('C20/routing/delivered-unexpected/concurrent-emits',
+                                                f'record {mm}:{ln} delivered to connection {cj} whose table is {table[c.n]}', case)
+                                    return
+                        continue
                     if kind == 'logging':
                         lv = model_level(l2)
                         for mm in (mods if m2 == '.' else [m2]):
